@@ -17,7 +17,7 @@ use reactive_graph::{
         arc_signal, signal, ArcMappedSignal, ArcReadSignal, ArcRwSignal, ArcTrigger, ArcWriteSignal,
         MappedSignal, ReadSignal, RwSignal, WriteSignal,
     },
-    traits::{Get, GetUntracked, Notify, Set, Track},
+    traits::{Dispose, Get, GetUntracked, Notify, Set, Track},
     wrappers::read::{ArcSignal, Signal},
 };
 #[allow(deprecated)]
@@ -171,9 +171,10 @@ struct Ctx {
     untracked: usize,  // > 0 inside untrack(..) / get_untracked of a derived / a watch handler
     mask: u8,          // which sub-command
     effects: Vec<bool>, // is node i an effect
+    gone: Vec<bool>,   // node i (an arena signal / memo) was disposed
 }
 thread_local! {
-    static CTX: RefCell<Ctx> = RefCell::new(Ctx { trace: vec![], stack: vec![], untracked: 0, mask: 0, effects: vec![] });
+    static CTX: RefCell<Ctx> = RefCell::new(Ctx { trace: vec![], stack: vec![], untracked: 0, mask: 0, effects: vec![], gone: vec![] });
 }
 fn ev(kind: i64, rest: Vec<i64>) {
     CTX.with(|c| {
@@ -182,6 +183,9 @@ fn ev(kind: i64, rest: Vec<i64>) {
         v.extend(rest.into_iter().map(Num));
         c.trace.push(Lst(v));
     })
+}
+fn is_gone(j: usize) -> bool {
+    CTX.with(|c| c.borrow().gone.get(j).copied().unwrap_or(false))
 }
 fn reader() -> i64 {
     CTX.with(|c| c.borrow().stack.last().copied().unwrap_or(-1))
@@ -236,6 +240,19 @@ fn read_node(hs: &[Handle], j: usize, tracked_read: bool) -> i64 {
     } else {
         None
     };
+    if is_gone(j) {
+        // a disposed arena handle: `get` would panic, `try_get` tracks nothing and gives None
+        let got = match &hs[j] {
+            Handle::Pair(r, _) => if tracked_read { r.try_get() } else { r.try_get_untracked() },
+            Handle::Rw(s) => if tracked_read { s.try_get() } else { s.try_get_untracked() },
+            Handle::Memo(m) => if tracked_read { m.try_get() } else { m.try_get_untracked() },
+            _ => panic!("case disposed a node that is not an arena signal / memo"),
+        };
+        let v = got.unwrap_or(0);
+        let t = tracked_read && tracked_ctx();
+        ev(2, vec![reader(), j as i64, v, t as i64]);
+        return v;
+    }
     let v = match &hs[j] {
         Handle::ArcRw(s) => if tracked_read { s.get() } else { s.get_untracked() },
         Handle::Pair(r, _) => if tracked_read { r.get() } else { r.get_untracked() },
@@ -311,6 +328,9 @@ fn read_node(hs: &[Handle], j: usize, tracked_read: bool) -> i64 {
 }
 
 fn write_node(hs: &[Handle], s: usize, v: i64) {
+    if is_gone(s) {
+        return;
+    }
     match &hs[s] {
         Handle::ArcRw(h) => h.set(v),
         Handle::Pair(_, w) => w.set(v),
@@ -325,6 +345,9 @@ fn write_node(hs: &[Handle], s: usize, v: i64) {
 }
 
 fn notify_node(hs: &[Handle], s: usize) {
+    if is_gone(s) {
+        return;
+    }
     match &hs[s] {
         Handle::ArcRw(h) => h.notify(),
         Handle::Pair(_, w) => w.notify(),
@@ -496,6 +519,7 @@ fn run_case(c: &Sexp, mask: u8) -> Sexp {
         x.stack.clear();
         x.untracked = 0;
         x.mask = mask;
+        x.gone.clear();
     });
     let prog = c.at(0).list();
     let ops = c.at(1).list();
@@ -607,7 +631,11 @@ fn run_case(c: &Sexp, mask: u8) -> Sexp {
         effs.push(eff);
         hs.push(h);
     }
-    CTX.with(|x| x.borrow_mut().effects = is_eff);
+    CTX.with(|x| {
+        let mut x = x.borrow_mut();
+        x.gone = vec![false; is_eff.len()];
+        x.effects = is_eff;
+    });
 
     'ops: for op in ops {
         let a = op.at(1).num();
@@ -616,8 +644,25 @@ fn run_case(c: &Sexp, mask: u8) -> Sexp {
             0 => write_node(&hs, a as usize, op.at(2).num()),
             1 => notify_node(&hs, a as usize),
             2 => {
-                let v = read_node(&hs, a as usize, true);
-                ev(0, vec![a, v]);
+                if !is_gone(a as usize) {
+                    let v = read_node(&hs, a as usize, true);
+                    ev(0, vec![a, v]);
+                }
+            }
+            8 => {
+                // dispose an arena signal / memo: its value and subscriber set are dropped
+                if !is_gone(a as usize) {
+                    match &hs[a as usize] {
+                        Handle::Pair(r, w) => {
+                            r.dispose();
+                            w.dispose();
+                        }
+                        Handle::Rw(s) => s.dispose(),
+                        Handle::Memo(m) => m.dispose(),
+                        _ => panic!("case disposes a node that is not an arena signal / memo"),
+                    }
+                    CTX.with(|x| x.borrow_mut().gone[a as usize] = true);
+                }
             }
             3 => {
                 if exec_poll_nth(a as usize).is_none() {
